@@ -14,9 +14,9 @@ pub fn meta() -> PropertyMeta {
     PropertyMeta {
         id: "C07",
         level: "exploration",
-        rule: "literals are built from values: for each of the ten integer types, every bound B in {MIN, MAX, 0, 2^24, 2^53, powers of ten, random in range} plus offsets -3..3 plus a fraction on / just below / just above one half (or .4, .6, none, random digits), rendered in every NR1/NR2/NR3 spelling (signs, leading/trailing zeros, bare dot, exponent shifts, E/e); plus zero in every spelling, wide random literals (1..40 digits, exponent -420..420), non-decimal #H/#Q/#B literals over the whole u64 range, MIN/MAX keywords and near misses, suffixed and non-numeric elements. For 8/16-bit targets every integer in range (+-2) x fractions {none,.0,.4,.5,.6,.49999,.50001} x two spellings is enumerated exhaustively. Oracle: exact decimal arithmetic. Non-trivial: value within 2 of a type bound, or within 1 of zero with a fractional part, or spelled with an exponent or a bare dot, or a 64-bit value needing more than 53 bits.",
+        rule: "literals are built from values: for each of the ten integer types, every bound B in {MIN, MAX, 0, 2^24, 2^53, powers of ten, random in range} plus offsets -3..3 plus a fraction on / just below / just above one half (or .4, .6, none, random digits), rendered in every NR1/NR2/NR3 spelling (signs, leading/trailing zeros, bare dot, exponent shifts, E/e); plus zero in every spelling, wide random literals (1..40 digits, exponent -420..420), non-decimal #H/#Q/#B literals over the whole u64 range, MIN/MAX keywords and near misses, suffixed and non-numeric elements. For 8/16-bit targets every integer in range (+-2) x fractions {none,.0,.4,.5,.6,.49999,.50001,.49999999999999994,.49999997} x two spellings is enumerated exhaustively. Oracle: exact decimal arithmetic. Non-trivial: value within 2 of a type bound, or within 1 of zero with a fractional part, or spelled with an exponent or a bare dot, or a 64-bit value needing more than 53 bits.",
         assumptions: &[
-            "admissible results: every integer n with |n - v| <= 1/2 + tol, tol = spacing of the float the property names (f32 for 8/16-bit, f64 otherwise) at magnitude |v|+1; in range => must be Ok(n); out of range => must be -222; straddling => either",
+            "admissible results: the exact rounding of the literal (both neighbours at an exact tie) and the exact rounding of its correctly rounded intermediate float (f64; f32 as well for 8/16-bit targets) -- i.e. exact up to the resolution of that float; all admissible integers in range => must be Ok(one of them); all out of range => must be -222; otherwise either",
             "a non-keyword character datum must be rejected with an error (any code), a suffixed / string / block / expression element with a command error",
         ],
         run,
@@ -37,7 +37,7 @@ pub fn check_decimal(ty: IntTy, lit: &str, obs: &Obs, key: &Case) -> CheckResult
         fail!("harness-literal", "generator produced {lit:?}, which the reference reader does not accept");
     };
     let (min, max) = ty.range();
-    let or = int_oracle(&d, ty.inter(), min, max);
+    let or = int_oracle(&d, lit, ty.inter(), min, max);
     // classification
     let near_bound = d.ip.map_or(false, |ip| {
         let ip = ip as i128;
@@ -58,26 +58,26 @@ pub fn check_decimal(ty: IntTy, lit: &str, obs: &Obs, key: &Case) -> CheckResult
     obs.label_if(bare_dot, "bare dot");
     obs.label_if(wide64, "64-bit needing > 53 bits");
     obs.label_if(or.must_be_ok(), "oracle: must convert");
-    obs.label_if(or.ok_lo > or.ok_hi, "oracle: must be -222");
-    obs.label_if(or.err_ok && or.ok_lo <= or.ok_hi, "oracle: straddles a bound");
+    obs.label_if(or.must_be_err(), "oracle: must be -222");
+    obs.label_if(or.err_ok() && !or.must_be_err(), "oracle: straddles a bound");
 
     let tok = Token::DecimalNumericProgramData(lit.as_bytes());
     let res = ty.convert(tok);
     match &res {
         Ok(n) => {
             if !or.admits_ok(*n) {
-                if or.ok_lo > or.ok_hi {
+                if or.must_be_err() {
                     fail!("accepted-out-of-range", "{}::try_from({lit}) = Ok({n}); the value is outside {min}..={max}, -222 required", ty.name());
                 }
-                fail!("wrong-value", "{}::try_from({lit}) = Ok({n}); admissible: {}..={}", ty.name(), or.ok_lo, or.ok_hi);
+                fail!("wrong-value", "{}::try_from({lit}) = Ok({n}); admissible (exact rounding of the literal / of its nearest float): {}", ty.name(), or.describe());
             }
         }
         Err(e) => {
             if e.get_code() != -222 {
                 fail!("wrong-error-code", "{}::try_from({lit}) = Err({}); only -222 may reject a decimal literal", ty.name(), e.get_code());
             }
-            if !or.err_ok {
-                fail!("spurious-range-error", "{}::try_from({lit}) = Err(-222) although {}..={} is representable", ty.name(), or.ok_lo, or.ok_hi);
+            if !or.err_ok() {
+                fail!("spurious-range-error", "{}::try_from({lit}) = Err(-222) although {} is representable", ty.name(), or.describe());
             }
         }
     }
@@ -225,8 +225,8 @@ pub fn keyword() -> impl Strategy<Value = String> {
     ]
 }
 
-fn grid_frac() -> [&'static str; 7] {
-    ["", "0", "4", "5", "6", "49999", "50001"]
+fn grid_frac() -> [&'static str; 9] {
+    ["", "0", "4", "5", "6", "49999", "50001", "49999999999999994", "49999997"]
 }
 
 fn run(e: &Engine) {
